@@ -327,7 +327,9 @@ def triple_jobs(tier):
         for f, ty, q in node_fields(P):
             for K in constructors(ty):
                 jobs.append(("triple", P, f, K))
-                if tier == "thorough":
+                # depth 3: everywhere in thorough; in quick under the parents that are neither
+                # statements nor expressions (arguments, arg, keyword, comprehension, patterns...)
+                if tier == "thorough" or kind_of(P) not in ("stmt", "expr", "mod"):
                     for g, ty2, q2 in node_fields(K):
                         for L in constructors(ty2):
                             jobs.append(("depth3", P, f, K, g, L))
@@ -595,6 +597,48 @@ def soft_keyword_programs(soft_keywords):
             if src not in seen and compiles(src):
                 seen.add(src)
                 out.append((f"soft:{k}", src))
+    return out
+
+
+REWRITE_NAMES = ("str", "int", "float", "ego", "workspace", "globalParameters", "Object", "callWithStarArgs",
+                 "wrapStarredValue", "_toStrScenic", "_scenic_properties", "self")  # fmt: skip
+REWRITE_TEMPLATES = [
+    "{n}(a)", "{n}()", "{n}(*a)", "{n}(a, *b, c=1, **a)", "x = {n}", "x = {n}.a", "x = a.{n}", "a.{n}(b)", "a.{n}.b(c)",
+    "a.{n}(*b)", "{n}.a(b)", "{n}.{n}({n})", "f({n}=1)", "f({n})", "f(*{n})", "f(**{n})", "f({n}(a))", "{n}({n}(a))",
+    "[{n}(a) for a in b]", "lambda: {n}(a)", "lambda a: {n}", "def f(a={n}): return {n}(a)", "def f():\n    return {n}",
+    "@{n}\ndef f(): pass", "@a.{n}(b)\ndef f(): pass", "class A({n}): pass", "class A(a.{n}): pass", "x[{n}]", "x[{n}(a)]",
+    "x = {n} if {n} else {n}", "x = {n} + {n}(a)", "f'{{n}}'", "f'{{n}(a)}'", "x = ({n})(a)", "x = {n} (a) (b)", "del a[{n}]",
+    "with {n}(a) as b: pass", "for a in {n}: pass", "for a in {n}(b): pass", "assert {n}, {n}(a)", "x = [{n}, *{n}]",
+    "x = {{n}: {n}}", "print({n}, sep={n})", "a = b = {n}(c)", "a += {n}(b)", "a: {n} = {n}(b)", "def f(a: {n}) -> {n}: pass",
+    "try: pass\nexcept {n}: pass", "raise {n}(a) from {n}", "x = {n}.a[b](c)", "global_{n} = 1", "x = a.b.{n}",
+    "import a.{n}", "from a import {n} as b", "class A:\n    def f(self): return {n}(self)",
+]  # fmt: skip
+CLASS_FORMS = [
+    "class A: pass", "class A(): pass", "class A(b): pass", "class A(b, c): pass", "class A(metaclass=b): pass",
+    "class A(b, metaclass=c): pass", "class A(*b): pass", "class A(**b): pass", "class A:\n    a = 1\n    def f(self): pass",
+    "class A:\n    class B: pass", "class A:\n    class B(c):\n        class C: pass", "def f():\n    class A: pass\n    return A",
+    "@a\nclass A: pass", "class A[T]: pass", "class A:\n    \"\"\"b\"\"\"", "class A:\n    \"\"\"b\"\"\"\n    a = 1", "class A: a = 1; b = 2",
+    "class A:\n    pass\n\n\nclass B(A):\n    pass", "class A:\n    if a:\n        b = 1\n    else:\n        b = 2",
+    "x = type('A', (), {})", "class A: ...", "class A:\n    a: b\n    c = 1", "class A:\n    c = 1\n    a: b\n    d = 2",
+    "class A:\n    a: b = 1\n    c: b", "class A:\n    def f(self):\n        a: b = 1",
+]  # fmt: skip
+
+
+def rewrite_programs():
+    """Every name involved in a documented rewrite in every syntactic position of a template
+    list, and every shape of class header / body (the class rewrite)."""
+    out, seen = [], set()
+    for n in REWRITE_NAMES:
+        for t in REWRITE_TEMPLATES:
+            src = t.replace("{n}", n) + "\n"
+            if src not in seen and compiles(src):
+                seen.add(src)
+                out.append((f"rewrite:{n}", src))
+    for t in CLASS_FORMS:
+        src = t + "\n"
+        if src not in seen and compiles(src):
+            seen.add(src)
+            out.append(("rewrite:class", src))
     return out
 
 
